@@ -246,8 +246,8 @@ def mutants(mb):
     mb.add_text("literal-coerced-kind-from-request", "apischema/deserialization/methods.py", "                        coerced = self.coercer(cls, data)\n                        return self.value_map[isinstance(coerced, bool), coerced]\n", "                        return self.value_map[cls is bool, self.coercer(cls, data)]\n", "C14.R4", "coerced-key")
     mb.add_text("literal-retry-aborts-on-coercer-error", "apischema/deserialization/methods.py", "                    except (KeyError, TypeError, ValidationError):\n", "                    except (KeyError, TypeError):\n", "C14.R6", "retry-handler")
     mb.add_text("literal-coercer-guard-flipped", "apischema/deserialization/methods.py", "        except KeyError:\n            if self.coercer is not None:\n", "        except KeyError:\n            if self.coercer is None:\n", "C14.R6", "LiteralMethod")
-    mb.add_text("optional-coercer-guard-or", "apischema/deserialization/methods.py", "            if self.coercer is not None and self.coercer(NoneType, data) is None:", "            if self.coercer is None or self.coercer(NoneType, data) is None:", "C14.R6", "OptionalMethod")
-    mb.add_text("optional-none-for-any-failure", "apischema/deserialization/methods.py", "            if self.coercer is not None and self.coercer(NoneType, data) is None:", "            if self.coercer is not None:", "C14.R6", "OptionalMethod")
+    mb.add_text("optional-coercer-guard-inverted", "apischema/deserialization/methods.py", "            if self.coercer is not None:\n                try:\n                    if self.coercer(NoneType, data) is None:", "            if self.coercer is None:\n                try:\n                    if self.coercer(NoneType, data) is None:", "C14.R", "OptionalMethod", analysis_error_ok=True)
+    mb.add_text("optional-none-for-any-failure", "apischema/deserialization/methods.py", "                    if self.coercer(NoneType, data) is None:\n                        return None\n", "                    return None\n", "C14.R", "OptionalMethod")
     C = "apischema/deserialization/coercion.py"
     M = "apischema/deserialization/methods.py"
     mb.add_text("identity-after-bool", C, "    elif isinstance(data, cls):\n        return data\n    elif cls is bool:", "    elif cls is bool and not isinstance(data, bool):", "C14.R1", "coerce")
@@ -260,7 +260,6 @@ def mutants(mb):
     mb.add_text("case-sensitive-lookup", C, "return STR_TO_BOOL[data.lower()]", "return STR_TO_BOOL[data]", "C14.R3", "lowercase")
     mb.add_text("none-words", C, 'STR_NONE_VALUES = {""}', 'STR_NONE_VALUES = {"", "null", "none"}', "C14.R3", "STR_NONE_VALUES")
     mb.add_text("coercer-result-unchecked", M, "        return self.method.deserialize(self.coercer(self.cls, data))", "        return self.coercer(self.cls, data)", "C14.R4", "CoercerMethod")
-    mb.add_text("optional-any-result", M, "            if self.coercer is not None and self.coercer(NoneType, data) is None:\n                return None\n            else:\n                raise merge_errors(err, bad_type(data, NoneType))",
-                "            if self.coercer is not None:\n                try:\n                    self.coercer(NoneType, data)\n                    return None\n                except ValidationError:\n                    pass\n            raise merge_errors(err, bad_type(data, NoneType))", "C14.R4", "OptionalMethod")
+    mb.add_text("optional-any-result", M, "                    if self.coercer(NoneType, data) is None:\n                        return None\n", "                    self.coercer(NoneType, data)\n                    return None\n", "C14.R4", "OptionalMethod")
     mb.add_text("coerce-leaks", C, "        except (ValueError, TypeError, OverflowError):", "        except ValueError:", "C14.R5", "coerce")
     mb.add_text("neg-blank-line", C, "    elif isinstance(data, cls):\n        return data\n", "    elif isinstance(data, cls):\n        # already of the right type\n        return data\n", negative=True)
